@@ -255,7 +255,7 @@ class Extractor:
     def interesting(self, sv):
         """discriminants of parameters, values read from the source, comparisons of such values with constants"""
         def leaf(x):
-            if x[0] == "discr":
+            if x[0] == "discr" or x[0] == "streq":
                 return True
             if x[0] == "elem":
                 return True
@@ -277,14 +277,18 @@ class Extractor:
         if self.track_ext and args and callee_path(t) not in self.prog.bodies:
             ty0 = it.op_type(t["args"][0])
             a0 = args[0]
-            if ty0.get("k") == "ref" and ty0.get("mut") and isinstance(a0, tuple) and a0[0] == "ref":
-                root, proj = a0[1]
+            if ty0.get("k") == "ref" and ty0.get("mut") and isinstance(a0, tuple) and not is_const(a0):
+                root, proj = it.target(a0)
+                short_name = name.split("::")[-1] if not name.startswith("<") else name
+                rendered = tuple(self.render_arg(S, x) for x in args[1:])
                 if root[0] == "P" and is_param_load(root[1], 1) and proj:
-                    fld = ".".join(e[2] for e in proj if e[0] == "f")
-                    toks.append(("mut", name.split("::")[-1] if not name.startswith("<") else name, fld, tuple(self.render_arg(S, x) for x in args[1:])))
+                    toks.append(("mut", short_name, ".".join(e[2] for e in proj if e[0] == "f"), rendered))
+                elif root[0] == "P" and self.track_local_muts and body.kind == "closure" and isinstance(root[1], tuple) and root[1][0] == "ld" and root[1][2] == "entry" \
+                        and root[1][1][0][0] == "L" and root[1][1][0][1] == 1 and root[1][1][1]:
+                    toks.append(("mut", short_name, "upvar:" + ".".join(str(e[1]) for e in root[1][1][1] if e[0] == "f"), rendered))
                 elif root[0] == "L" and self.track_local_muts:
                     nm = body.locals[root[1]]["name"] or "_%d" % root[1]
-                    toks.append(("mut", name.split("::")[-1] if not name.startswith("<") else name, "local:" + nm, tuple(self.render_arg(S, x) for x in args[1:])))
+                    toks.append(("mut", short_name, "local:" + nm, rendered))
         if self.mode == "w":
             if name in WRITE_CALLS and args and self.sink_pred(it, S, args[0], it.op_type(t["args"][0])):
                 w, n = WRITE_CALLS[name]
